@@ -85,3 +85,96 @@ Proof.
   - rewrite row_eqb_cons. unfold row_eqb. simpl. apply andb_true_r.
   - intro H. unfold vequal. destruct a, b; try reflexivity. destruct H; congruence.
 Qed.
+
+(* ---- the hashmap operators keep one representative per class ---- *)
+Section Nub.
+  Variable eq : list value -> list value -> bool.
+  Hypothesis eq_rfl : forall r, eq r r = true.
+
+  Definition nub_add (ks : list (list value)) (r : list value) : list (list value) :=
+    if existsb (fun k => eq k r) ks then ks else ks ++ [r].
+
+  Lemma hm_add_keys : forall r gs, map g_first (hm_add eq r gs) = nub_add (map g_first gs) r.
+  Proof.
+    unfold nub_add. induction gs as [|g gs IH]; [reflexivity|]. simpl.
+    destruct (eq (g_first g) r); simpl; [reflexivity|]. rewrite IH.
+    destruct (existsb (fun k => eq k r) (map g_first gs)); reflexivity.
+  Qed.
+
+  Lemma hm_groups_keys : forall rows gs,
+    map g_first (fold_left (fun gs r => hm_add eq r gs) rows gs) = fold_left nub_add rows (map g_first gs).
+  Proof. induction rows as [|r rows IH]; intro gs; [reflexivity|]. simpl. rewrite IH, hm_add_keys. reflexivity. Qed.
+
+  Lemma nub_add_incl : forall ks r k, In k ks -> In k (nub_add ks r).
+  Proof. intros ks r k H. unfold nub_add. destruct (existsb _ ks); [exact H | apply in_or_app; left; exact H]. Qed.
+  Lemma nub_fold_incl : forall rows ks k, In k ks -> In k (fold_left nub_add rows ks).
+  Proof. induction rows as [|r rows IH]; intros ks k H; [exact H|]. simpl. apply IH. apply nub_add_incl. exact H. Qed.
+
+  Lemma nub_covers : forall rows ks r, In r rows -> exists o, In o (fold_left nub_add rows ks) /\ eq o r = true.
+  Proof.
+    induction rows as [|x rows IH]; intros ks r H; [destruct H|]. simpl. destruct H as [H|H]; [subst x | apply IH; exact H].
+    unfold nub_add at 2. destruct (existsb (fun k => eq k r) ks) eqn:E.
+    - apply existsb_exists in E. destruct E as [k [Hk Ek]]. exists k. split; [apply nub_fold_incl; exact Hk | exact Ek].
+    - exists r. split; [apply nub_fold_incl; apply in_or_app; right; left; reflexivity | apply eq_rfl].
+  Qed.
+
+  Lemma nub_from : forall rows ks o, In o (fold_left nub_add rows ks) -> In o ks \/ In o rows.
+  Proof.
+    induction rows as [|x rows IH]; intros ks o H; [left; exact H|]. simpl in H. destruct (IH _ _ H) as [H1|H1]; [|right; right; exact H1].
+    unfold nub_add in H1. destruct (existsb _ ks); [left; exact H1|]. apply in_app_or in H1. destruct H1 as [H1|[H1|[]]]; [left; exact H1 | right; left; exact H1].
+  Qed.
+
+  Definition separated (ks : list (list value)) : Prop := ForallOrdPairs (fun a b => eq a b = false) ks.
+
+  Lemma separated_snoc : forall ks r, separated ks -> (forall k, In k ks -> eq k r = false) -> separated (ks ++ [r]).
+  Proof.
+    induction 1 as [|k ks Hk _ IH]; intro H; simpl; [repeat constructor|].
+    constructor.
+    - apply Forall_app. split; [exact Hk | constructor; [apply H; left; reflexivity | constructor]].
+    - apply IH. intros k' Hk'. apply H. right. exact Hk'.
+  Qed.
+
+  Lemma nub_separated : forall rows ks, separated ks -> separated (fold_left nub_add rows ks).
+  Proof.
+    induction rows as [|r rows IH]; intros ks S; [exact S|]. simpl. apply IH. unfold nub_add.
+    destruct (existsb (fun k => eq k r) ks) eqn:E; [exact S|]. apply separated_snoc; [exact S|].
+    intros k Hk. destruct (eq k r) eqn:Ek; [|reflexivity]. exfalso.
+    assert (existsb (fun k => eq k r) ks = true) by (apply existsb_exists; exists k; auto). congruence.
+  Qed.
+End Nub.
+
+Lemma slices_eq_refl : forall r, slices_eq r r = true.
+Proof. induction r as [|x r IH]; [reflexivity|]. simpl. rewrite vcompare_refl. exact IH. Qed.
+Lemma eq_hashmap_refl : forall r, eq_hashmap r r = true.
+Proof. intro r. unfold eq_hashmap. rewrite Z.eqb_refl, slices_eq_refl. reflexivity. Qed.
+
+(* DISTINCT (and the key column of the hashmap GROUP BY) returns exactly one representative, taken from the input,
+   of every class of "Compare = 0 column by column" rows *)
+Theorem op_distinct_classes : forall n rows, Forall (fun r => length r = n) rows ->
+  (forall r, In r rows -> exists o, In o (op_distinct rows) /\ row_eqb o r = true) /\
+  (forall o, In o (op_distinct rows) -> In o rows) /\
+  ForallOrdPairs (fun a b => row_eqb a b = false) (op_distinct rows).
+Proof.
+  intros n rows L. unfold op_distinct, hm_groups. rewrite hm_groups_keys. simpl.
+  assert (Sub : forall o, In o (fold_left (nub_add eq_hashmap) rows []) -> In o rows).
+  { intros o H. destruct (nub_from eq_hashmap rows [] o H) as [[]|H1]. exact H1. }
+  rewrite Forall_forall in L. split; [|split].
+  - intros r Hr. destruct (nub_covers eq_hashmap eq_hashmap_refl rows [] r Hr) as [o [Ho E]]. exists o. split; [exact Ho|].
+    rewrite <- (eq_hashmap_row o r); [exact E|]. rewrite (L o (Sub o Ho)), (L r Hr). reflexivity.
+  - exact Sub.
+  - pose proof (nub_separated eq_hashmap rows [] (FOP_nil _)) as S. unfold separated in S.
+    assert (G : forall l, (forall o, In o l -> In o rows) -> ForallOrdPairs (fun a b => eq_hashmap a b = false) l ->
+                ForallOrdPairs (fun a b => row_eqb a b = false) l).
+    { induction 2 as [|a l Ha _ IH]; constructor.
+      - rewrite Forall_forall in *. intros b Hb. rewrite <- (eq_hashmap_row a b); [apply Ha; exact Hb|].
+        rewrite (L a (H a (or_introl eq_refl))), (L b (H b (or_intror Hb))). reflexivity.
+      - apply IH. intros o Ho. apply H. right. exact Ho. }
+    apply G; assumption.
+Qed.
+
+Lemma op_sgb_keys : forall rows, map (fun r => firstn (length r - 1) r) (op_simple_group_by rows) = op_distinct rows.
+Proof.
+  intro rows. unfold op_simple_group_by, op_distinct. rewrite map_map. apply map_ext. intro g.
+  rewrite app_length. simpl. replace (length (g_first g) + 1 - 1)%nat with (length (g_first g) + 0)%nat by lia.
+  rewrite firstn_app_2. simpl. apply app_nil_r.
+Qed.
